@@ -7,8 +7,9 @@ failing —, any normalisation functions, any actions), all user names, all enve
 headers (any number of `From` / `Sender` fields, each with any parse result).
 
 `Entitled c user addr` is the property's "address the authenticated user is entitled to under the
-configured mapping": some entry the mapping gives the (normalised) user name is `*`, the
+configured mapping": some entry the mapping table gives the (normalised) user name is `*`, the
 address, or the address's domain — the address being first mapped through `prepare_email`.
+It is stated over the table's own answer (`tableEntries`); an empty entry covers nothing.
 -/
 namespace MaddyVerif.C15
 open MaddyVerif.Address MaddyVerif.AuthzSender
@@ -16,15 +17,17 @@ open MaddyVerif.Address MaddyVerif.AuthzSender
 /-! ## the specification -/
 
 /-- Entry `e` of the user's entitlement list covers the (prepared) address `p`:
-`*`, the address itself, or its domain. -/
+`*`, the address itself, or its domain.  An empty entry (key-only line of a table file, list
+ending in a comma) covers nothing — in particular not the domain-less `postmaster`, whose
+`split` domain is the empty string. -/
 def Covers (e p : Str) : Prop :=
-  e = STAR ∨ e = p ∨ ∃ m d, split p = .ok (m, d) ∧ e = d
+  e ≠ [] ∧ (e = STAR ∨ e = p ∨ ∃ m d, split p = .ok (m, d) ∧ e = d)
 
 /-- The user may send as `addr` under the configured mapping. -/
 def Entitled (c : Cfg) (user addr : Str) : Prop :=
   ∃ nu na ps es,
     c.authNorm user = some nu ∧ c.fromNorm addr = some na ∧
-    prepared c.emailPrepare na = .ok ps ∧ validEmails c.userToEmail nu = .ok es ∧
+    prepared c.emailPrepare na = .ok ps ∧ tableEntries c.userToEmail nu = .ok es ∧
     ∃ p ∈ ps, ∃ e ∈ es, Covers e p
 
 /-- "every address in a From field": there is a From field, every From field parses to a
@@ -63,8 +66,33 @@ theorem fail_quarantine (a : FailAction) (r : Reason) : (fail a r).quarantine = 
 theorem fail_ne_pass_reason (a : FailAction) (r : Reason) : (fail a r).reason ≠ none := by
   simp [fail_reason]
 
+/-- `validEmails` is the table's answer without its empty entries. -/
+theorem validEmails_eq (t : Table) (u : Str) :
+    validEmails t u = match tableEntries t u with
+      | .error e => .error e
+      | .ok es => .ok (es.filter (fun e => !e.isEmpty)) := by
+  cases t with
+  | multi f => simp only [validEmails, tableEntries]; cases f u <;> rfl
+  | single f =>
+    simp only [validEmails, tableEntries]
+    split
+    · rfl
+    · rename_i v _; cases hv : v.isEmpty <;> simp [List.filter, hv]
+    · rfl
+
+theorem validEmails_ok (t : Table) (u : Str) (es' : List Str) (h : validEmails t u = .ok es') :
+    ∃ es, tableEntries t u = .ok es ∧ es' = es.filter (fun e => !e.isEmpty) := by
+  rw [validEmails_eq] at h
+  split at h
+  · cases h
+  · rename_i es hes; cases h; exact ⟨es, hes, rfl⟩
+
+theorem validEmails_of_entries (t : Table) (u : Str) (es : List Str) (h : tableEntries t u = .ok es) :
+    validEmails t u = .ok (es.filter (fun e => !e.isEmpty)) := by
+  rw [validEmails_eq, h]
+
 theorem authorizeLoop_true (es : List Str) (ps : List Str) (h : authorizeLoop es ps = .ok true) :
-    ∃ p ∈ ps, ∃ e ∈ es, Covers e p := by
+    ∃ p ∈ ps, ∃ e ∈ es, (e = STAR ∨ e = p ∨ ∃ m d, split p = .ok (m, d) ∧ e = d) := by
   induction ps with
   | nil => simp [authorizeLoop] at h
   | cons p rest ih =>
@@ -127,8 +155,12 @@ theorem authzSender_pass (c : Cfg) (u a : Str) (h : (authzSender c u a).reason =
             unfold authorizeEmailUse at hauth
             split at hauth
             · cases hauth
-            · rename_i es hes
-              exact ⟨nu, na, ps, es, hnu, hna, hps, hes, authorizeLoop_true es ps hauth⟩
+            · rename_i es' hes'
+              obtain ⟨es, hes, hfilter⟩ := validEmails_ok _ _ _ hes'
+              obtain ⟨p, hp, e, he, hc⟩ := authorizeLoop_true es' ps hauth
+              rw [hfilter, List.mem_filter] at he
+              have hne : e ≠ [] := by intro h0; simp [h0] at he
+              exact ⟨nu, na, ps, es, hnu, hna, hps, hes, p, hp, e, he.1, hne, hc⟩
 
 theorem authzSender_isNone_pass (c : Cfg) (u a : Str) (h : (authzSender c u a).reason.isNone = true) :
     authzSender c u a = pass := by
@@ -368,14 +400,15 @@ So no case / normalisation / IDN spelling of a foreign address can pass. -/
 theorem C15_pass_implies_entry_up_to_spelling (c : Cfg) (canon : Str → Str) (hs : SpellingSound c canon)
     (hid : ∀ na, prepared c.emailPrepare na = .ok [na]) (u a : Str)
     (h : (authzSender c u a).reason = none) :
-    ∃ nu es, c.authNorm u = some nu ∧ validEmails c.userToEmail nu = .ok es ∧
-      ∃ e ∈ es, CoarseCovers canon e a := by
+    ∃ nu es, c.authNorm u = some nu ∧ tableEntries c.userToEmail nu = .ok es ∧
+      ∃ e ∈ es, e ≠ [] ∧ CoarseCovers canon e a := by
   obtain ⟨_, nu, na, ps, es, hnu, hna, hps, hes, p, hp, e, he, hc⟩ := authzSender_pass c u a h
   rw [hid na] at hps
   cases hps
   simp at hp
   subst hp
-  refine ⟨nu, es, hnu, hes, e, he, ?_⟩
+  obtain ⟨hne, hc⟩ := hc
+  refine ⟨nu, es, hnu, hes, e, he, hne, ?_⟩
   rcases hc with hc | hc | ⟨m, d, hsp, hd⟩
   · exact .inl hc
   · subst hc; exact .inr (.inl (hs.addr a e hna))
@@ -387,7 +420,8 @@ theorem C15_pass_implies_entry_up_to_spelling (c : Cfg) (canon : Str → Str) (h
 
 theorem authorizeLoop_complete (es ps : List Str)
     (hsplit : ∀ p ∈ ps, ∃ m d, split p = .ok (m, d))
-    (hcov : ∃ p ∈ ps, ∃ e ∈ es, Covers e p) : authorizeLoop es ps = .ok true := by
+    (hcov : ∃ p ∈ ps, ∃ e ∈ es, (e = STAR ∨ e = p ∨ ∃ m d, split p = .ok (m, d) ∧ e = d)) :
+    authorizeLoop es ps = .ok true := by
   induction ps with
   | nil => simp at hcov
   | cons p rest ih =>
@@ -415,13 +449,46 @@ theorem authorizeLoop_complete (es ps : List Str)
 address `prepare_email` yields is splittable (otherwise the code answers with an internal error). -/
 theorem C15_entitled_passes (c : Cfg) (u a nu na : Str) (ps es : List Str) (hu : u ≠ [])
     (hnu : c.authNorm u = some nu) (hna : c.fromNorm a = some na)
-    (hps : prepared c.emailPrepare na = .ok ps) (hes : validEmails c.userToEmail nu = .ok es)
+    (hps : prepared c.emailPrepare na = .ok ps) (hes : tableEntries c.userToEmail nu = .ok es)
     (hsplit : ∀ p ∈ ps, ∃ m d, split p = .ok (m, d))
     (hcov : ∃ p ∈ ps, ∃ e ∈ es, Covers e p) :
     authzSender c u a = pass := by
   unfold authzSender
   have : u.isEmpty = false := by cases u <;> simp_all
-  simp [this, hna, hnu, hps, authorizeEmailUse, hes, authorizeLoop_complete es ps hsplit hcov]
+  have hcov' : ∃ p ∈ ps, ∃ e ∈ es.filter (fun e => !e.isEmpty),
+      (e = STAR ∨ e = p ∨ ∃ m d, split p = .ok (m, d) ∧ e = d) := by
+    obtain ⟨p, hp, e, he, hne, hc⟩ := hcov
+    refine ⟨p, hp, e, ?_, hc⟩
+    rw [List.mem_filter]
+    refine ⟨he, ?_⟩
+    cases e <;> simp_all
+  simp [this, hna, hnu, hps, authorizeEmailUse, validEmails_of_entries _ _ _ hes,
+    authorizeLoop_complete _ ps hsplit hcov']
+
+/-! ## entries that name nothing: the empty string -/
+
+/-- **C15 (empty entries are inert).** Two mapping tables whose answers for the user differ only in
+empty entries (a key-only line of a table file, a list ending in a comma, an empty SQL column)
+give the same entitlement decision for every list of (prepared) sender values — including values
+whose `split` domain is empty (the bare `postmaster`). -/
+theorem C15_empty_entries_inert (t t' : Table) (u : Str) (es es' ps : List Str)
+    (h : tableEntries t u = .ok es) (h' : tableEntries t' u = .ok es')
+    (hsame : es.filter (fun e => !e.isEmpty) = es'.filter (fun e => !e.isEmpty)) :
+    authorizeEmailUse u ps t = authorizeEmailUse u ps t' := by
+  simp [authorizeEmailUse, validEmails_of_entries _ _ _ h, validEmails_of_entries _ _ _ h', hsame]
+
+/-- **C15 (empty entries).** A user whose mapping yields only empty entries is entitled to
+nothing: no sender value passes, whatever `prepare_email` turns it into. -/
+theorem C15_empty_entries_entitle_to_nothing (c : Cfg) (u a nu : Str) (es : List Str)
+    (hnu : c.authNorm u = some nu) (hes : tableEntries c.userToEmail nu = .ok es)
+    (hempty : ∀ e ∈ es, e = []) : (authzSender c u a).reason ≠ none := by
+  intro h
+  obtain ⟨_, nu', na, ps, es', hnu', _, _, hes', p, _, e, he, hne, _⟩ := authzSender_pass c u a h
+  rw [hnu] at hnu'
+  cases hnu'
+  rw [hes] at hes'
+  cases hes'
+  exact hne (hempty e he)
 
 /-! ## non-vacuity: concrete configurations and messages -/
 
@@ -470,6 +537,29 @@ example : accepted exCfg (some (s "bob")) (s "bob@example.org") { fromFields := 
 -- unauthenticated / local
 example : accepted exCfg (some []) (s "alice@example.org") { fromFields := [one "alice@example.org"], senderFields := [] } = false := by decide
 example : accepted exCfg none (s "mailer-daemon@example.org") { fromFields := [], senderFields := [] } = true := by decide
+
+-- an empty entry entitles to nothing, not even to the domain-less postmaster (whose `split`
+-- domain is the empty string), with or without `prepare_email email_localpart`
+def emptyEntryCfg : Cfg :=
+  { exCfg with
+    userToEmail := .multi fun k => if k = s "backup" then .ok [[]] else .ok [s "postmaster", []]
+    fromNorm := some }
+def localpartPrepare : Table := .single fun k =>
+  match split k with
+  | .ok (m, _) => .ok (some m)
+  | .error _ => .ok none
+example : split (s "postmaster") = .ok (s "postmaster", []) := by rfl
+example : checkSender emptyEntryCfg (some (s "backup")) (s "postmaster") = refuse emptyEntryCfg .noMatch := by decide
+example : checkSender { emptyEntryCfg with emailPrepare := localpartPrepare } (some (s "backup")) (s "postmaster@example.org")
+    = refuse emptyEntryCfg .noMatch := by decide
+example : checkSender { emptyEntryCfg with emailPrepare := localpartPrepare } (some (s "backup")) (s "alice@example.org")
+    = refuse emptyEntryCfg .internal := by decide
+example : checkSender emptyEntryCfg (some (s "root")) (s "postmaster") = pass := by decide
+example : checkSender { emptyEntryCfg with emailPrepare := localpartPrepare } (some (s "root")) (s "postmaster@example.org") = pass := by decide
+-- the hypotheses of `C15_empty_entries_entitle_to_nothing` are satisfiable
+example : emptyEntryCfg.authNorm (s "Backup") = some (s "backup") ∧
+    tableEntries emptyEntryCfg.userToEmail (s "backup") = .ok [[]] ∧ ∀ e ∈ [([] : Str)], e = [] :=
+  ⟨by decide, by rfl, by simp⟩
 
 /-- `SpellingSound` is satisfiable with a non-trivial equivalence (ASCII case folding) for the
 identity normaliser, and `prepared … = [na]` holds for the identity table. -/
